@@ -11,8 +11,35 @@ Record case := {
 Definition outcome_eqb (a b : outcome) : bool :=
   match a, b with ROk, ROk | RErr, RErr | RPanic, RPanic => true | _, _ => false end.
 
+Definition kk_eqb0 (a b : key * key) : bool := str_eqb (fst a) (fst b) && str_eqb (snd a) (snd b).
+Fixpoint remove_one0 {A} (eqb : A -> A -> bool) (x : A) (l : list A) : option (list A) :=
+  match l with
+  | [] => None
+  | y :: t => if eqb x y then Some t else option_map (cons y) (remove_one0 eqb x t)
+  end.
+(* the length of the well-formed prefix of an observed history: up to the first release of a
+   permit that is not held.  The property (and every theorem: [reach] lets only holders release)
+   is about well-formed use; what the limiters do after a caller released what it did not hold
+   is not specified, and is compared no further *)
+Fixpoint wf_prefix (ops : list op) (res : list outcome) (msgs : list (key * key)) (dsts : list key) : nat :=
+  match ops, res with
+  | o :: ops', r :: res' =>
+      match o with
+      | TakeMsg ip src => S (wf_prefix ops' res' (match r with ROk => (ip, src) :: msgs | _ => msgs end) dsts)
+      | TakeDest d => S (wf_prefix ops' res' msgs (match r with ROk => d :: dsts | _ => dsts end))
+      | ReleaseMsg ip src =>
+          match remove_one0 kk_eqb0 (ip, src) msgs with Some m => S (wf_prefix ops' res' m dsts) | None => O end
+      | ReleaseDest d =>
+          match remove_one0 str_eqb d dsts with Some m => S (wf_prefix ops' res' msgs m) | None => O end
+      | _ => S (wf_prefix ops' res' msgs dsts)
+      end
+  | _, _ => O
+  end.
+
 Definition agrees (c : case) : bool :=
-  list_eqb outcome_eqb (fst (run (init (c_cfg c) (c_max c)) (c_ops c))) (c_res c).
+  let k := wf_prefix (c_ops c) (c_res c) [] [] in
+  Nat.eqb (length (c_ops c)) (length (c_res c)) &&
+  list_eqb outcome_eqb (firstn k (fst (run (init (c_cfg c) (c_max c)) (c_ops c)))) (firstn k (c_res c)).
 Definition mismatches (cs : list case) : list N := find_idx (fun c => negb (agrees c)) cs.
 
 (* ---- the property on the observed outcomes ---- *)
